@@ -612,6 +612,14 @@ namespace Dune {
           public std::integral_constant<bool, IsNumber<T>::value>{
   };
 
+  // a LoopSIMD can hold NaN in a lane exactly if its entries can; dense
+  // vectors/matrices use this to select the NaN-propagating infinity norms,
+  // so that each lane yields what the scalar algorithm yields
+  template<class T, std::size_t S, std::size_t A>
+  struct HasNaN<LoopSIMD<T,S,A>> :
+          public std::integral_constant<bool, HasNaN<T>::value>{
+  };
+
 #ifdef CLANG_WARNING_DISABLED
 #  pragma clang diagnostic pop
 #  undef CLANG_WARNING_DISABLED
